@@ -259,7 +259,7 @@ theorem decompose_covers (w : Waiting) (g : ChordsGroup) (q : List Queued) (aq :
     let keys := start :: newMasks g start (participants w g q)
     let dflt := (releasedBy g (scanRest w g q)).getD w.coord
     let L := segs g keys keys.length 0
-    let entries := L.map (entryOf w g dflt q keys (w.delay + w.ticks))
+    let entries := L.map (entryOf w g dflt q keys (min (w.delay + w.ticks) U16_MAX))
     (newMasks g start (participants w g q)).Sublist ((participants w g q).map (maskOf g)) ∧
     decomposeChord w g q aq = pushAll aq entries ∧
     Covers g keys 0 L ∧ (∀ L', Covers g keys 0 L' → L' = L) ∧
@@ -314,8 +314,8 @@ theorem chord_fires_once (s : Layout) (w : Waiting) (g : ChordsGroup) (hw : s.wa
     (∃ a c s1 s2, (chordActive (ticked w) g s.queue, a) ∈ g.chords ∧
       (c = w.coord ∨ releasedBy g (scanRest (ticked w) g s.queue) = some c) ∧
       doAction FUEL { s with waiting := none, queue := keptQueue (ticked w) g s.queue } a c
-        (w.delay + min (w.ticks + 1) U16_MAX) false w.layerStack = .ok (s1, cu) ∧
-      chordRepeat a (pressedQueue (ticked w) g s.queue) (w.delay + min (w.ticks + 1) U16_MAX) w.layerStack s1 = .ok s2 ∧
+        (min (w.delay + min (w.ticks + 1) U16_MAX) U16_MAX) false w.layerStack = .ok (s1, cu) ∧
+      chordRepeat a (pressedQueue (ticked w) g s.queue) (min (w.delay + min (w.ticks + 1) U16_MAX) U16_MAX) w.layerStack s1 = .ok s2 ∧
       s' = tapPost s2) ∨
     (g.getChord (chordActive (ticked w) g s.queue) = none ∧ cu = .noEvent ∧
       s' = { s with waiting := none, queue := keptQueue (ticked w) g s.queue,
@@ -332,8 +332,8 @@ theorem chord_fires_once (s : Layout) (w : Waiting) (g : ChordsGroup) (hw : s.wa
       ∃ a c s1 s2, (chordActive (ticked w) g s.queue, a) ∈ g.chords ∧
         (c = w.coord ∨ releasedBy g (scanRest (ticked w) g s.queue) = some c) ∧
         doAction FUEL { s with waiting := none, queue := keptQueue (ticked w) g s.queue } a c
-          (w.delay + min (w.ticks + 1) U16_MAX) false w.layerStack = .ok (s1, cu) ∧
-        chordRepeat a (pressedQueue (ticked w) g s.queue) (w.delay + min (w.ticks + 1) U16_MAX) w.layerStack s1 = .ok s2 ∧
+          (min (w.delay + min (w.ticks + 1) U16_MAX) U16_MAX) false w.layerStack = .ok (s1, cu) ∧
+        chordRepeat a (pressedQueue (ticked w) g s.queue) (min (w.delay + min (w.ticks + 1) U16_MAX) U16_MAX) w.layerStack s1 = .ok s2 ∧
         s' = tapPost s2 := by
     intro a c hmem hcoord hh
     obtain ⟨s1, s2, h1, h2, h3⟩ := waitingIntoTap_chord _
